@@ -131,6 +131,7 @@ def cases(tier, seed):
         out.append(dict(kind="bfs", shape=list(shape), ninf=ninf, depth=3 if tier == "quick" else 4))
     out.append(dict(kind="recursion"))
     out.append(dict(kind="dependent"))
+    out.append(dict(kind="api"))
     return out
 
 
@@ -219,6 +220,8 @@ def run_case(case):
         return run_recursion()
     elif kind == "dependent":
         return run_dependent()
+    elif kind == "api":
+        return run_api()
     return dict(violations=[dict(what=w, key=None) for w in V[:5]], nontrivial=nontrivial,
                 outcome="ok" if not V else "violation", stats=dict(index_expressions=n),
                 sample=dict(kind=kind, shape=case.get("shape"), ninf=case.get("ninf"),
@@ -396,3 +399,63 @@ def run_dependent():
                 V.append(f"backward recurrence, request {item} (after {first}): elements evaluated more than once: {sorted(dup)[:3]}")
     return dict(violations=[dict(what=w, key=None) for w in V[:4]], nontrivial=True, outcome="dependent",
                 stats=dict(index_expressions=n_req), sample=dict(kind="dependent", requests=[str(r) for r in requests_h[:3]]))
+
+
+def run_api():
+    """Initial data, membership, pop and re-evaluation, series without infinite dimensions."""
+    from pymablock.series import BlockSeries, zero
+
+    V = []
+    n = 0
+    for shape, ninf in (((2,), 1), ((2, 2), 1), ((), 2), ((3,), 0), ((2, 2), 0)):
+        full = tuple(shape) + (3,) * ninf
+        all_idx = list(itertools.product(*(range(d) for d in full)))
+        given = {idx: ("d" + token(idx)) for t, idx in enumerate(all_idx) if t % 3 == 0}
+        given.update({idx: zero for t, idx in enumerate(all_idx) if t % 7 == 1})
+        log = []
+
+        def ev(*index, log=log):
+            log.append(tuple(int(i) for i in index))
+            return zero if is_zero_index(index) else token(index)
+
+        data_in = dict(given)
+        s = BlockSeries(eval=ev, data=data_in, shape=shape, n_infinite=ninf, name="S")
+        # membership before any evaluation: everything except declared zeros counts as present
+        for idx in all_idx:
+            n += 1
+            want = not (idx in given and given[idx] is zero)
+            if (idx in s) != want:
+                V.append(f"shape={shape} ninf={ninf}: `{idx} in series` is {idx in s} before evaluation (declared data: {given.get(idx, 'none')!r})")
+        for idx in all_idx:
+            got = s[idx] if len(idx) > 1 else s[idx[0]]
+            n += 1
+            want = given[idx] if idx in given else (zero if is_zero_index(idx) else token(idx))
+            if got is not want and got != want:
+                V.append(f"shape={shape} ninf={ninf}: element {idx} is {got!r}, expected {want!r}")
+            if idx in given and idx in log:
+                V.append(f"shape={shape} ninf={ninf}: element {idx} given as initial data was evaluated")
+        if len(set(log)) != len(log):
+            V.append(f"shape={shape} ninf={ninf}: an element was evaluated twice")
+        if data_in != given:
+            V.append("the caller's data dictionary was modified")
+        # membership after evaluation: only known-zero elements are absent
+        for idx in all_idx:
+            want = not ((idx in given and given[idx] is zero) or (idx not in given and is_zero_index(idx)))
+            if (idx in s) != want:
+                V.append(f"shape={shape} ninf={ninf}: `{idx} in series` is {idx in s} after evaluation")
+        # pop: returns the cached value, removes it, a later request evaluates again exactly once
+        probe = next((i for i in all_idx if i not in given and not is_zero_index(i)), None)
+        if probe is None:
+            continue
+        before = len(log)
+        if s.pop(probe, None) != token(probe):
+            V.append("pop did not return the cached value")
+        if s.pop(probe, "default") != "default":
+            V.append("pop of a missing element did not return the default")
+        again = s[probe] if len(probe) > 1 else s[probe[0]]
+        if again != token(probe) or log[before:] != [probe]:
+            V.append(f"after pop the element {probe} was not re-evaluated exactly once (log {log[before:]})")
+        if s.shape != tuple(shape) or s.n_infinite != ninf or len(s.dimension_names) != ninf:
+            V.append("shape / n_infinite / dimension_names inconsistent")
+    return dict(violations=[dict(what=w, key=None) for w in V[:4]], nontrivial=True, outcome="api",
+                stats=dict(index_expressions=n), sample=dict(kind="api"))
